@@ -106,6 +106,12 @@ def items(tier, seed):
                 ('static_integer<%d, nearest_rounding_tag, saturated_overflow_tag, std::int64_t>' % rnd.randint(33, 63), 'i64'),
                 ('rounding_integer<elastic_integer<%d, int>, nearest_rounding_tag>' % rnd.randint(2, 31), 'i32'),
                 ('overflow_integer<std::uint64_t, saturated_overflow_tag>', 'u64'),
+                # 128-bit representations (values beyond 64 bits: operator<< must not narrow them)
+                ('elastic_integer<%d, int>' % [90, 64, 80, 70][seed % 4], 'i128'),
+                ('elastic_integer<%d, unsigned>' % [90, 65, 80, 64][seed % 4], 'u128'),
+                ('overflow_integer<unsigned __int128, %s>' % ov[(seed + 1) % 4], 'u128'),
+                ('rounding_integer<__int128, %s>' % rdm[seed % 4], 'i128'),
+                ('static_integer<%d>' % [64, 90, 72, 80][seed % 4], 'i128'),
                 ('rounding_integer<%s, %s>' % (CT[rnd.choice(['i16', 'u32', 'u64', 'i64'])], rnd.choice(rdm)), None)]
     for (w, t) in wrappers:
         if t is None:
